@@ -814,7 +814,7 @@ class Image:
             Image: scaled image
 
         """
-        if not isinstance(scalar, float) or isinstance(scalar, int):
+        if not isinstance(scalar, (float, int)):
             raise ValueError
 
         result_image = self.copy()
